@@ -241,7 +241,7 @@ def gen_type(rng: core.Rng, declared: str) -> Optional[str]:
     return declared
 
 
-def gen_alist(rng: core.Rng, objs: List[dict], cname: str, depth: int, wild: bool) -> list:
+def gen_alist(rng: core.Rng, objs: List[dict], cname: str, depth: int, wild: bool, sel: bool = False) -> list:
     ft = field_table()
     fs = list(fields_of(cname))
     rng.shuffle(fs)
@@ -283,10 +283,14 @@ def gen_alist(rng: core.Rng, objs: List[dict], cname: str, depth: int, wild: boo
                 ap = ["all", gen_list(rng, objs, end, 0 if (wild and rng.chance(0.15)) else 1, 3)]
             else:
                 ap = ["match", gen_type(rng, end), None, "any" if rng.chance(0.1) else "match"]
+        if sel and ap[0] == "match" and rng.chance(0.2):
+            ap[3] = "select_any" if ap[3] == "any" else "select"
+        if sel and ap[0] in ("any", "all") and rng.chance(0.12):
+            ap[0] = "sel_" + ap[0]
         if ap[0] == "match":
-            ap[2] = gen_alist(rng, objs, end, depth - 1, wild)
+            ap[2] = gen_alist(rng, objs, end, depth - 1, wild, sel)
             if ap[2] == [] and not wild and it and not (ap[1] and not issub(end, ap[1])):
-                ap[2] = gen_alist(rng, objs, end, 1, wild)
+                ap[2] = gen_alist(rng, objs, end, 1, wild, sel)
         out.append([a, ap])
     return out
 
@@ -323,8 +327,15 @@ def apat_term(ap) -> str:
         return f"(PAny {val_term(ap[1])})"
     if ap[0] == "all":
         return f"(PAll {val_term(ap[1])})"
+    if ap[0] == "var":
+        return f"(PVar {val_term(ap[2])})"
+    if ap[0] == "sel_any":
+        return f"(PSel (PAny {val_term(ap[1])}))"
+    if ap[0] == "sel_all":
+        return f"(PSel (PAll {val_term(ap[1])}))"
     t = f"(Some {CID[ap[1]]}%nat)" if ap[1] else "None"
-    return f"(PMatch (Pat {t} {alist_term(ap[2])}))"
+    m = f"(PMatch (Pat {t} {alist_term(ap[2])}))"
+    return f"(PSel {m})" if ap[3] in ("select", "select_any") else m
 
 
 def case_term(d: dict, keys: List[int]) -> str:
@@ -348,9 +359,10 @@ def case_term(d: dict, keys: List[int]) -> str:
         trows.append(f"({i + 1}, {CID[o['cls']]}%nat)")
     subs = "; ".join(f"({CID[c]}, {CID[e]})%nat" for c in CLASSES for e in CLASSES if issub(c, e))
     flds = "; ".join(f"({CID[c]}, {ATTR[a]}, {'true' if it else 'false'}, {CID[e]})%nat" for (c, a), (it, e) in sorted(ft.items()))
-    return ("{| c_world := [%s]; c_types := [%s]; c_sub := [%s]; c_fields := [%s]; c_objcls := [%s]%%nat; c_T := %d%%nat; "
+    return ("{| c_world := [%s]; c_types := [%s]; c_sub := [%s]; c_fields := [%s]; c_objcls := [%s]%%nat; c_rootsel := %s; c_T := %d%%nat; "
             "c_pat := %s; c_dom := %s |}") % (
-        "; ".join(wrows), "; ".join(trows), subs, flds, "; ".join(str(CID[c]) for c in OBJ_CLASSES), CID[d["T"]],
+        "; ".join(wrows), "; ".join(trows), subs, flds, "; ".join(str(CID[c]) for c in OBJ_CLASSES),
+        "true" if d.get("rootsel") else "false", CID[d["T"]],
         alist_term(d["pat"]), core.zlist(i + 1 for i in d["dom"]))
 
 
@@ -367,7 +379,7 @@ def py_value(v, built):
 
 
 def build_kwargs(al, built):
-    from krrood.entity_query_language.match import match, match_any, match_all
+    from krrood.entity_query_language.match import match, match_any, match_all, select, select_any, select_all
     kw = {}
     for a, ap in al:
         if ap[0] == "lit":
@@ -376,11 +388,15 @@ def build_kwargs(al, built):
             kw[a] = match_any(py_value(ap[1], built))
         elif ap[0] == "all":
             kw[a] = match_all(py_value(ap[1], built))
+        elif ap[0] == "sel_any":
+            kw[a] = select_any(py_value(ap[1], built))
+        elif ap[0] == "sel_all":
+            kw[a] = select_all(py_value(ap[1], built))
         elif ap[0] == "var":
             from krrood.entity_query_language.entity import let
             kw[a] = let(CLASSES[ap[1]], py_value(ap[2], built))
         else:
-            ctor = match_any if ap[3] == "any" else match
+            ctor = {"any": match_any, "match": match, "select": select, "select_any": select_any}[ap[3]]
             t = CLASSES[ap[1]] if ap[1] else None
             kw[a] = (ctor(t) if t is not None else ctor())(**build_kwargs(ap[2], built))
     return kw
@@ -395,11 +411,34 @@ def run_impl(d: dict):
     built = build_world(d["objs"])
     keys = eq_keys(built)
     index = {id(x): i for i, x in enumerate(built)}
+    def canon(v):
+        if isinstance(v, bool) or v is None:
+            return [9, 0]
+        if isinstance(v, int):
+            return [0, v]
+        if isinstance(v, str):
+            return [0, STR0 + STRS.index(v)]
+        if isinstance(v, list):
+            return [3, [index.get(id(x), -1) + 1 for x in v]]
+        return [1, index.get(id(v), -1) + 1]
     try:
-        q = an(entity_matching(CLASSES[d["T"]], [built[i] for i in d["dom"]])(**build_kwargs(d["pat"], built)))
+        from krrood.entity_query_language.match import entity_selection
+        from krrood.entity_query_language.symbolic import UnificationDict
+        ctor = entity_selection if d.get("rootsel") else entity_matching
+        q = an(ctor(CLASSES[d["T"]], [built[i] for i in d["dom"]])(**build_kwargs(d["pat"], built)))
         res = list(q.evaluate())
-        ids = [index.get(id(r), -1) + 1 for r in res]
-        out = [sorted(set(ids)), len(ids)]
+        selected = list(q._child_.selected_variables)
+        rows = []
+        for r in res:
+            if isinstance(r, UnificationDict):
+                rows.append([canon(r.data[v].value) for v in selected])
+            else:
+                rows.append([canon(r)])
+        if d.get("rootsel") or not has_sel(d["pat"]):
+            ids = [row[0][1] for row in rows]              # the root element is the first column
+            out = [sorted(set(ids)), len(ids), rows]
+        else:
+            out = [None, len(rows), rows]
     except Exception as e:  # noqa
         out = [-1, sum(map(ord, type(e).__name__))]
     return out, keys, built
@@ -417,9 +456,9 @@ def py_spec(d: dict, built) -> List[int]:
         if ap[0] == "lit":
             lit = ap[1]
             return any(mem(x, elems(lit)) for x in v) if isinstance(v, list) else v == lit
-        if ap[0] == "any":
+        if ap[0] in ("any", "sel_any"):
             return any(mem(x, elems(ap[1])) for x in elems(v))
-        if ap[0] == "all":
+        if ap[0] in ("all", "sel_all"):
             return all(mem(x, elems(ap[1])) for x in elems(v)) and all(mem(y, elems(v)) for y in elems(ap[1]))
         if ap[0] == "var":      # a let-variable as value: the attribute equals / has a member equal to SOME value of its domain
             return any(mem(x, ap[2]) for x in elems(v))
@@ -432,7 +471,7 @@ def py_spec(d: dict, built) -> List[int]:
     def conv(ap):
         if ap[0] == "var":
             return [ap[0], ap[1], py_value(ap[2], built)]
-        return [ap[0], py_value(ap[1], built)] if ap[0] in ("lit", "any", "all") else ap
+        return [ap[0], py_value(ap[1], built)] if ap[0] in ("lit", "any", "all", "sel_any", "sel_all") else ap
 
     T = CLASSES[d["T"]]
     return sorted({i + 1 for i in d["dom"] if isinstance(built[i], T) and ok_alist(d["pat"], built[i])})
@@ -454,10 +493,10 @@ def classify(d: dict) -> Dict[str, int]:
         """kind of the first condition the alist emits: None | 'exists' | 'other'"""
         for a, ap in al:
             it, end = ft[(cname, a)]
-            if ap[0] == "lit":
+            if ap[0] in ("lit", "var"):
                 return "other"
-            if ap[0] in ("any", "all"):
-                return "exists" if ap[0] == "any" else "other"
+            if ap[0] in ("any", "all", "sel_any", "sel_all"):
+                return "exists" if ap[0] in ("any", "sel_any") else "other"
             if tfilter(ap[1], end):
                 return "other"
             f = first_cond(ap[2], end)
@@ -473,10 +512,12 @@ def classify(d: dict) -> Dict[str, int]:
                     hit("U_in")
                 if it and ap[1][0] in ("li", "ls", "lo") and not ap[1][1]:
                     pass
-            elif ap[0] in ("any", "all"):
+            elif ap[0] == "var":
+                hit("K_letvalue")
+            elif ap[0] in ("any", "all", "sel_any", "sel_all"):
                 if not ap[1][1]:
                     hit("K_emptylist")
-                elif ap[0] == "all" and not it:
+                elif ap[0] in ("all", "sel_all") and not it:
                     hit("U_all_scalar")
             else:
                 T = ap[1]
@@ -514,12 +555,13 @@ def gen_cases(tier: str, seed: int) -> List[dict]:
         objs = gen_world(r)
         T = r.choice(["Rack", "Rack", "Rack", "Rack", "WideRack", "Unit"])
         wild = r.chance(0.35)
-        pat = gen_alist(r, objs, T, 3, wild)
+        sel = r.chance(0.35)
+        pat = gen_alist(r, objs, T, 3, wild, sel)
         dom = list(range(len(objs)))
         r.shuffle(dom)
         if r.chance(0.3):
             dom = dom[: max(1, len(dom) - 3)]
-        out.append({"objs": objs, "T": T, "pat": pat, "dom": dom})
+        out.append({"objs": objs, "T": T, "pat": pat, "dom": dom, "rootsel": bool(sel and r.chance(0.4))})
     return out
 
 
@@ -568,17 +610,22 @@ def gen_directed(tier: str, seed: int) -> List[dict]:
             continue
         first = r.choice(firsts)
         inner = [first, second] if r.chance(0.8) else [second, first]
-        nested = ["units", ["match", r.choice(["Unit", "Unit", None]), inner, "match"]]
+        nested = ["units", ["match", r.choice(["Unit", "Unit", None]), inner, "select" if r.chance(0.3) else "match"]]
         rootkw = ["box", ["lit", ["o", objs[ri]["box"]]]] if r.chance(0.5) else ["part", ["match", "Part", [["name", ["lit", ["s", objs[objs[ri]["part"]]["name"]]]]], "match"]]
         k = r.randint(0, 2)
         pat = [nested] if k == 0 else ([rootkw, nested] if k == 1 else [nested, rootkw])
-        out.append({"objs": objs, "T": "Rack", "pat": pat, "dom": list(range(len(objs)))})
+        out.append({"objs": objs, "T": "Rack", "pat": pat, "dom": list(range(len(objs))), "rootsel": r.chance(0.3)})
     return out
 
 
 def snippet(d: dict) -> str:
     return ("import json; from harness import c11; d = json.loads(%r); out, keys, built = c11.run_impl(d); "
             "print('returned', out, 'expected', c11.py_spec(d, built))") % json.dumps(d)
+
+
+def has_sel(al) -> bool:
+    return any(ap[0] in ("sel_any", "sel_all") or (ap[0] == "match" and (ap[3] in ("select", "select_any") or has_sel(ap[2])))
+               for _, ap in al)
 
 
 def has_var(al) -> bool:
@@ -597,7 +644,7 @@ def gen_letvalue_cases(tier: str, seed: int) -> List[dict]:
         T = r.choice(["Rack", "Rack", "Unit"])
 
         def var_kw(cname):
-            a = r.choice(fields_of(cname))
+            a = r.choice([f for f in fields_of(cname) if ft[(cname, f)][1] != "str"])     # `'n0' in 'n0'` is a substring test
             it, end = ft[(cname, a)]
             lst = gen_list(r, objs, end, 1, 3)
             return [a, ["var", end, lst]]
@@ -614,7 +661,7 @@ def gen_letvalue_cases(tier: str, seed: int) -> List[dict]:
 
 
 TYPEERROR = [-1, sum(map(ord, "TypeError"))]
-KF_CLASSES = ("K_emptynested",)   # K_emptylist (C11-b), K_existsfirst (C11-c), K_unrelated (C11-d) are repaired: counted, never tolerated
+KF_CLASSES = ("K_emptynested", "K_letvalue")   # K_emptylist (C11-b), K_existsfirst (C11-c), K_unrelated (C11-d) are repaired: counted, never tolerated
 UNSPEC = ("U_in", "U_all_scalar")
 
 
@@ -660,30 +707,9 @@ def run(tier: str, seed: int, replay=None) -> int:
             for p in sorted(cdir.glob("*.json")):
                 corpus.append((p.name, json.loads(p.read_text())))
         descrs = [c["case"] for _, c in corpus] + gen_cases(tier, seed) + gen_directed(tier, seed)
-    # keywords whose value is a let-variable: side stream (implementation vs direct Python predicate, no Coq term)
-    var_descrs = [d for d in descrs if has_var(d["pat"])] + ([] if replay else gen_letvalue_cases(tier, seed))
-    corpus = [(n, c) for n, c in corpus if not has_var(c["case"]["pat"])]
-    descrs = [d for d in descrs if not has_var(d["pat"])]
+    if not replay:
+        descrs += gen_letvalue_cases(tier, seed)        # keywords whose value is a let-variable (finding C11-f)
     ncorpus = len(corpus)
-    lv = {"cases": 0, "agree": 0, "TypeError (known finding C11-f)": 0}
-    lv_bad = []
-    for d in var_descrs:
-        out, _keys, built = run_impl(d)
-        exp = py_spec(d, built)
-        iset = out[0] if out[0] != -1 else out
-        lv["cases"] += 1
-        rep.count(json.dumps(d, sort_keys=True), bool(exp))
-        if iset == exp:
-            lv["agree"] += 1
-        elif iset == TYPEERROR and "K_letvalue" in open_classes:
-            lv["TypeError (known finding C11-f)"] += 1
-        else:
-            lv_bad.append((d, iset, exp))
-    rep.extra["let_variable_values"] = lv
-    for d, iset, exp in lv_bad[:3]:
-        rep.violation({"kind": "counterexample", "case": d, "impl": iset, "spec": exp, "python": snippet(d),
-                       "explanation": "a keyword whose value is a let-variable over an explicit domain: expected = elements whose attribute equals / "
-                                      "has a member equal to some value of the variable's domain (direct Python predicate; not modelled in Coq)"})
 
     impls, terms, builts = [], [], []
     for d in descrs:
@@ -695,7 +721,7 @@ def run(tier: str, seed: int, replay=None) -> int:
         vals = core.coq_values(PROP, HEADER, [f"case_out {t}" for t in terms], chunk=150)
     else:
         rep.note("model not available; comparing the implementation with the Spec only (search for a failing input)")
-        vals = [[None, v, 0, 0] for v in core.coq_values(PROP, HEADER_SPEC, [f"spec_out {t}" for t in terms], chunk=150)]
+        vals = [[None, v[0], 0, 0, None, 0, None, v[1]] for v in core.coq_values(PROP, HEADER_SPEC, [f"SL [spec_out {t}; spec_rows_out {t}]" for t in terms], chunk=150)]
 
     dist: Dict[str, int] = {}
     kf_seen: Dict[str, int] = {}
@@ -706,21 +732,41 @@ def run(tier: str, seed: int, replay=None) -> int:
     def bump(k, n=1):
         dist[k] = dist.get(k, 0) + n
 
-    for i, (d, impl, pys, (model, spec, inf, ncond)) in enumerate(zip(descrs, impls, builts, vals)):
+    lax_bad = []
+    def rowset(x):
+        if x is None or (len(x) == 2 and x[0] == -1):
+            return x
+        return sorted({json.dumps(r) for r in x})
+
+    rows_bad = []
+    for i, (d, impl, pys, (model, spec, inf, ncond, lax, inflax, mrows, srows)) in enumerate(zip(descrs, impls, builts, vals)):
         iset = impl[0] if impl[0] != -1 else impl
+        sel_case = bool(d.get("rootsel")) or has_sel(d["pat"])
+        irows = rowset(impl[2]) if impl[0] != -1 else impl
+        mrows, srows = rowset(mrows), rowset(srows)
+        if sel_case:
+            # patterns with select...: the outcome is the set of rows of the selected inner parts
+            bump("with select")
+            iset, model, spec = irows, mrows, srows
+        elif mrows is not None and irows != mrows:
+            rows_bad.append((i, irows, mrows))
         cl = classify(d)
         nT = len([j for j in d["dom"] if issub(d["objs"][j]["cls"], d["T"])])
-        nontrivial = isinstance(iset, list) and 0 < len(spec) < nT
+        nontrivial = isinstance(iset, list) and (0 < len(spec) < nT or (sel_case and len(spec) > 0))
         rep.count(json.dumps(d, sort_keys=True), nontrivial)
         for k, n in kinds(d["pat"]).items():
             bump("kind:" + k if k != "depth" else f"depth:{n}", n if k != "depth" else 1)
         bump("in_F" if inf else "outside_F")
+        if inflax and not inf:
+            bump("in_F11lax only (finding C11-e characterised by C11_match_lax)")
+        if inflax and model is not None and not sel_case and model != lax:
+            lax_bad.append((i, model, lax))
         for k in cl:
             bump("class:" + k)
         bump("nontrivial" if nontrivial else "trivial")
-        if impl[0] != -1 and impl[1] != len(impl[0]):
+        if impl[0] not in (-1, None) and impl[1] != len(impl[0]):
             bump("answers_with_repeats")
-        if pys != spec and not any(k in cl for k in UNSPEC):
+        if not sel_case and pys != spec and not any(k in cl for k in UNSPEC):
             rep.oblige("spec:python-predicate", False, f"Spec {spec} differs from the direct Python predicate {pys} on case {i}")
         if model is not None and iset != model:
             model_bad.append((i, d, iset, model, spec))
@@ -742,35 +788,29 @@ def run(tier: str, seed: int, replay=None) -> int:
     rep.extra["known_finding_instances"] = kf_seen
     rep.samples = [{"case": descrs[j], "impl": impls[j], "spec": vals[j][1]} for j in range(ncorpus, len(descrs), max(1, len(descrs) // 5))][:5]
     if model_ok:
+        rep.oblige("instance:C11_match_lax", not lax_bad,
+                   "" if not lax_bad else f"model answer differs from the relaxed reading inside F11lax on case {lax_bad[0][0]}: {lax_bad[0][1]} vs {lax_bad[0][2]}")
+        rep.oblige("correspondence:rows", not rows_bad,
+                   "" if not rows_bad else f"rows of a pattern without select differ: case {rows_bad[0][0]}: impl {rows_bad[0][1]} model {rows_bad[0][2]}")
         rep.oblige("correspondence:model", not model_bad,
                    "" if not model_bad else f"{len(model_bad)} cases, first: impl {model_bad[0][2]} model {model_bad[0][3]} case {json.dumps(model_bad[0][1])[:300]}")
     for i, d, iset, model, spec in (bad + [m for m in model_bad if m[2] == m[4]][:1])[:5]:
         if (i, d, iset, model, spec) in bad:
             rep.violation({"kind": "counterexample", "case": d, "impl": iset, "model": model, "spec": spec,
                            "classes": classify(d), "python": snippet(d),
-                           "explanation": "outcome = sorted identities (1-based object index) of the elements returned; spec = elements of type T satisfying the pattern"})
+                           "explanation": "outcome = sorted identities (1-based object index) of the elements returned; spec = elements of type T satisfying the pattern; "
+                                          "for a pattern with select / entity_selection: the set of rows of the selected expressions, each value as "
+                                          "[0,int] | [1,object] | [3,[objects]]"})
     # known findings and fixed entries: replay the witnesses
     if not replay:
         by_name = {n: k for k, (n, _) in enumerate(corpus)}
         for f in findings:
             name = f.witness.split("/")[-1]
-            if f.cls == "K_letvalue":
-                d = json.loads((core.VERIF / f.witness).read_text())["case"]
-                out, _k, built = run_impl(d)
-                iset = out[0] if out[0] != -1 else out
-                if iset == TYPEERROR and iset != py_spec(d, built):
-                    rep.known(f)
-                elif iset == py_spec(d, built):
-                    rep.note(f"known finding {f.fid} no longer reproduces on its witness (repaired?)")
-                else:
-                    rep.violation({"kind": "counterexample", "finding": f.fid, "case": d, "impl": iset, "spec": py_spec(d, built),
-                                   "python": snippet(d), "explanation": "the witness of C11-f fails differently from what is recorded"})
-                continue
             if name not in by_name:
                 rep.oblige(f"witness:{f.fid}", False, f"witness {f.witness} missing")
                 continue
             k = by_name[name]
-            impl, (model, spec, inf, _) = impls[k], vals[k]
+            impl, (model, spec, inf, *_rest) = impls[k], vals[k]
             iset = impl[0] if impl[0] != -1 else impl
             if f.kind == "open":
                 if iset != spec and (model is None or iset == model):
